@@ -253,6 +253,32 @@ brk('C04', 'R04.7', 'pyiga/hierarchical.py', 'pyiga.hierarchical.HSpace.refine',
 twin('C04', 'pyiga/hierarchical.py', 'pyiga.hierarchical.HSpace.refine', r"marked = \{lv: set\(cells\) for \(lv, cells\) in marked\.items\(\)\}", 'marked = {lv: set(marked[lv]) for lv in marked}', 'copy written over the keys')
 
 
+def _load_patch_recipes():
+    """Independently written changes kept under /verif/seeded (must be reported) and /verif/refactors (behaviour-preserving,
+    must stay silent) take part in the self-validation as whole-patch recipes."""
+    import glob
+    import json
+    here = os.path.dirname(os.path.dirname(os.path.abspath(__file__)))
+    for meta in sorted(glob.glob(os.path.join(here, 'seeded', 'S*', 'meta.json'))):
+        try:
+            m = json.load(open(meta))
+        except Exception:
+            continue
+        R.append(dict(prop=m['property'], kind='break', rule=None, file='seeded/' + m['id'], func=None, pat=None, rep=None,
+                      desc='independently seeded change: ' + m.get('what', '')[:90], patch=os.path.join(os.path.dirname(meta), 'patch.diff')))
+    for meta in sorted(glob.glob(os.path.join(here, 'refactors', 'F*', 'meta.json'))):
+        try:
+            m = json.load(open(meta))
+        except Exception:
+            continue
+        for prop in m.get('properties', [m.get('property')]):
+            R.append(dict(prop=prop, kind='twin', rule=None, file='refactors/' + m['id'], func=None, pat=None, rep=None,
+                          desc='independently written refactoring: ' + m.get('what', '')[:90], patch=os.path.join(os.path.dirname(meta), 'patch.diff')))
+
+
+_load_patch_recipes()
+
+
 def recipes_for(prop):
     return [r for r in R if r['prop'] == prop]
 
@@ -294,21 +320,28 @@ def _run_one(args):
                             ignore=shutil.ignore_patterns('*.so', '*.c', '*.cpp', '__pycache__', 'build', '*.o'))
         program_mod.REPO = repo
         base_prog = _BASE.get('prog')
-        status = _apply(recipe, d, base_prog)
-        if status != 'applied':
-            return idx, 'skipped', 'anchor of the recipe not found in the current tree'
+        if recipe.get('patch'):
+            import subprocess
+            pr = subprocess.run(['patch', '-p1', '-s', '-f', '-d', d, '-i', recipe['patch']], capture_output=True, text=True)
+            if pr.returncode != 0:
+                return idx, 'skipped', 'patch does not apply to the current tree'
+        else:
+            status = _apply(recipe, d, base_prog)
+            if status != 'applied':
+                return idx, 'skipped', 'anchor of the recipe not found in the current tree'
         program_mod.REPO = d
         buf = io.StringIO()
         try:
-            compile(open(os.path.join(d, recipe['file'])).read(), recipe['file'], 'exec') if recipe['file'].endswith('.py') else None
+            compile(open(os.path.join(d, recipe['file'])).read(), recipe['file'], 'exec') if (recipe['file'].endswith('.py') and not recipe.get('patch')) else None
         except SyntaxError as e:
             return idx, 'recipe-error', 'edited file does not parse: %s' % e
         code, ctx = core.run_property(recipe['prop'], 'quick', repo=d, write=False, out=buf)
         out = buf.getvalue()
         if recipe['kind'] == 'break':
-            fired = ctx is not None and any(o.verdict == core.VIOLATED and o.rule == recipe['rule'] for o in ctx.obligations)
+            fired = ctx is not None and any(o.verdict == core.VIOLATED and (recipe['rule'] is None or o.rule == recipe['rule']) for o in ctx.obligations)
             if code == 1 and fired:
-                return idx, 'ok', 'fired %s' % recipe['rule']
+                hit = recipe['rule'] or ', '.join(sorted({o.rule for o in ctx.obligations if o.verdict == core.VIOLATED}))
+                return idx, 'ok', 'fired %s' % hit
             rules = sorted({o.rule for o in ctx.obligations if o.verdict == core.VIOLATED}) if ctx is not None else []
             return idx, 'FAILED', 'expected %s to fire; exit=%s violated rules=%s%s' % (
                 recipe['rule'], code, rules, (' ' + out.strip().splitlines()[0][:160]) if code == 2 and out.strip() else '')
